@@ -18,11 +18,11 @@ def bits_of(v, n):
     return bin(v)[2:].zfill(n)[-n:] if n else ''
 
 
-def craft_message(ids, data_bits, n_subsets=1, category=0, mtv=13, edition=3, compressed=False):
+def craft_message(ids, data_bits, n_subsets=1, category=0, mtv=13, edition=3, compressed=False, centre=7, ltv=0):
     """a whole edition-3 message around hand-made data bits"""
     pad = -len(data_bits) % 8
     data = bytes(int((data_bits + '0' * pad)[i:i + 8], 2) for i in range(0, len(data_bits) + pad, 8))
-    sec1 = bytes([0, 0, 18, 0, 0, 7, 0, 0, category, 0, mtv, 0, 20, 1, 1, 0, 0, 0])
+    sec1 = bytes([0, 0, 18, 0, 0, centre, 0, 0, category, 0, mtv, ltv, 20, 1, 1, 0, 0, 0])
     d = b''.join(bytes([((i // 100000) << 6) | ((i // 1000) % 100), i % 1000]) for i in ids)
     l3 = 7 + len(d)
     sec3 = l3.to_bytes(3, 'big') + bytes([0]) + n_subsets.to_bytes(2, 'big') + bytes([0x80 | (0x40 if compressed else 0)]) + d
@@ -317,7 +317,11 @@ def run(ctx):
     for h in hist:
         dm, dvals = def_message(h['b_defs'], h['d_defs'])
         h['def_vals'] = dvals
-        data = craft_message(h['ids'], h['bits'])
+        # the data message may come from a centre whose LOCAL tables are bundled (98: versions 1, 2, 3, 101): the
+        # in-stream definitions are merged into that table group as into every other
+        ctr, ltv = rng.choice([(7, 0), (7, 0), (98, 1), (98, 101), (98, 2), (98, 0), (34, 1)])
+        h['centre_ltv'] = (ctr, ltv)
+        data = craft_message(h['ids'], h['bits'], centre=ctr, ltv=ltv)
         sep = rng.choice([b'', b'\r\r\n', b'xxBUF'])
         streams.append(dm + sep + data)
     with ThreadPoolExecutor(max_workers=8) as ex:
@@ -336,6 +340,7 @@ def run(ctx):
         ctx.count(('history', h['k'], len(h['bits'])), True)
         ctx.dist['elements-%d' % len(h['b_defs'])] += 1
         ctx.dist['sequences-%d' % len(h['d_defs'])] += 1
+        ctx.dist['data message centre %d local tables %d' % h['centre_ltv']] += 1
         if h['reponly']:
             ctx.dist['replication-only-sequences (NCEP)'] += 1
         if 'err' in res or len(res['ok']) != 2:
